@@ -101,6 +101,18 @@ def _nearly_same_sf(o):
     o.smooth_fa_freqs = f * (1 + 8e-6) if k % 2 == 0 else f / (1 + 8e-6)
 
 
+def _lookalike(cur):
+    """a grid with the same number of points and the same first and last value as the current one, other interior points"""
+    cur = np.asarray(cur, dtype=float)
+    n = len(cur)
+    if n < 3:               # no interior: one more point in the middle, same ends
+        return np.array([cur[0], 0.5 * (cur[0] + cur[-1]), cur[-1]]) if n == 2 else np.array([cur[0], cur[0] * 1.5 + 0.1])
+    lin = np.linspace(cur[0], cur[-1], n)
+    if np.allclose(cur, lin, rtol=1e-9, atol=0.0):
+        return cur[0] + (cur[-1] - cur[0]) * np.linspace(0, 1, n) ** 2
+    return lin
+
+
 def _edit_and_reassign_rt(o):
     """the caller keeps the array it assigned, edits it in place and assigns the same container again"""
     p = np.array(_toggle(o.response_times, RT), dtype=float)
@@ -162,6 +174,7 @@ def build_ops(cls):
     # settings (each toggles between two menu values)
     add('set:smooth_fa_freqs', 'sf', lambda o: setattr(o, 'smooth_fa_freqs', _toggle(o.smooth_fa_freqs, SF)))
     add('set:smooth_fa_freqs(nearly the same)', 'sf', _nearly_same_sf)
+    add('set:smooth_fa_freqs(same length and ends, other interior)', 'sf', lambda o: setattr(o, 'smooth_fa_freqs', _lookalike(o.smooth_fa_freqs)))
     add('set:smooth_fa_frequencies', 'sf', lambda o: setattr(o, 'smooth_fa_frequencies', _toggle(o.smooth_fa_freqs, SF)))
     add('set:set_smooth_fa_frequecies_by_range', 'sf',
         lambda o: o.set_smooth_fa_frequecies_by_range((0.5, 20.0) if abs(o.smooth_fa_freqs[0] - 0.5) > 1e-9 or len(o.smooth_fa_freqs) != 5 else (1.0, 10.0), 5))
@@ -171,6 +184,7 @@ def build_ops(cls):
     if cls == 'AccSignal':
         add('set:response_times', 'rt', lambda o: setattr(o, 'response_times', _toggle(o.response_times, RT)))
         add('set:response_times(same container, edited in place)', 'rt', _edit_and_reassign_rt)
+        add('set:response_times(same length and ends, other interior)', 'rt', lambda o: setattr(o, 'response_times', _lookalike(o.response_times)))
         add('set:gen_response_spectrum(times)', 'rt', lambda o: o.gen_response_spectrum(response_times=_toggle(o.response_times, RT)))
         add('set:response_series(times)', 'rt', lambda o: o.response_series(response_times=_toggle(o.response_times, RT)))
     # explicit generator calls with non-default arguments install a user-chosen variant of one derived family: until the next
@@ -347,6 +361,9 @@ def _expand_keys(arg):
     return out
 
 
+CLOSURE_STATE_CAP = 1200
+
+
 def closure_states(cls, sd, pool):
     """level-synchronous BFS on abstract keys only (no invariant here): returns the shortest
     history of every reachable abstract state, in canonical discovery order."""
@@ -354,6 +371,8 @@ def closure_states(cls, sd, pool):
     seen = collections.OrderedDict()
     seen[abstract_key(o)] = []
     frontier = [[]]
+    truncated = None
+    depth = 0
     while frontier:
         res = pool.map(_expand_keys, [(cls, sd, h) for h in frontier])
         nxt = []
@@ -363,7 +382,14 @@ def closure_states(cls, sd, pool):
                     seen[k] = h + [name]
                     nxt.append(h + [name])
         frontier = nxt
-    return list(seen.values())
+        depth += 1
+        if len(seen) > CLOSURE_STATE_CAP:
+            # an implementation whose control state does not close within the cap (the unchanged tree has 6 .. 480 states):
+            # the levels completed so far are kept and checked, the run is reported as not exhaustive
+            truncated = ('%s/%s: more than %d abstract states after %d complete BFS levels (%d found, %d unexpanded)'
+                         % (cls, sd, CLOSURE_STATE_CAP, depth, len(seen), len(frontier)))
+            break
+    return list(seen.values()), truncated
 
 
 def build(tier, seed):
@@ -372,13 +398,16 @@ def build(tier, seed):
     cases = []
     quick = tier == 'quick'
     nstates = {}
+    truncated = []
     pool = mp.get_context('fork').Pool(int(os.environ.get('MC_WORKERS', '16')))
     try:
         for cls in ('Signal', 'AccSignal'):
             ops, kind = build_ops(cls)
             for sd in SEEDS:
                 cases.append({'mode': 'effect', 'cls': cls, 'seed': sd})
-                hists = closure_states(cls, sd, pool)
+                hists, trunc = closure_states(cls, sd, pool)
+                if trunc:
+                    truncated.append(trunc)
                 nstates['%s/%s' % (cls, sd)] = len(hists)
                 for h in hists:
                     cases.append({'mode': 'closure', 'cls': cls, 'seed': sd, 'history': h})
@@ -394,6 +423,7 @@ def build(tier, seed):
         pool.terminate()
         pool.join()
     return {
+        'truncated': '; '.join(truncated) if truncated else None,
         'cases': cases,
         'rule': 'engine S on real objects: (closure) BFS over the cache-control state to closure from 3 seed records x '
                 '{Signal, AccSignal} - one pool case per reachable abstract state, every operation applied to its representative; '
